@@ -182,6 +182,7 @@ def run_history(ctx, su, history, label):
     any_kill = any(k is not None for _, k, _ in history)
     ctx.case((label, repr(inp["history"]), su.nparts), any_kill)
     diverged = False
+    su.results = []
     init_ok, done, finalised = False, set(), False       # protocol bookkeeping for the recovery clause
     for idx, (cmd, kill, torn) in enumerate(history):
         pre = set(protolib.snapshot(su.icf))
@@ -192,6 +193,7 @@ def run_history(ctx, su, history, label):
         # maps the real kill index to a number of model mutations
         evs = trace_from(su, cmd, pre, idx, history)
         res = fstrace.run_killed(su.icf, su.cmd_fn(cmd), kill)
+        su.results.append(res)
         muts, before = su.model_events(evs, pre)
         if res == "killed":
             fuel = before[kill] if kill < len(before) else len(muts)
@@ -345,31 +347,43 @@ def collect_transients(su):
 
 
 def recovery_check(ctx, su, history, label):
-    """after any history that left an initialised, unfinalised store: rerun all partitions in a random order, finalise,
-    and compare the tree with the reference — the statement's recovery clause, directly"""
+    """after any history in which init completed: the protocol commands must still be able to reach a store that loads and
+    equals an uninterrupted run — finalise again; if that is not enough, every partition (random order, one twice) and
+    finalise.  The statement's recovery clause, directly."""
     rng = ctx.rng
-    if not (su.icf / "wip" / "metadata.json").exists() or (su.icf / "metadata.json").exists():
+    init_done = False
+    for (c, k, _t), r in zip(history, su.results):
+        if c[0] == "init" and r == "completed":
+            init_done = True
+    if not init_done:
         return
-    try:
-        import json
-        json.loads((su.icf / "wip" / "metadata.json").read_text())
-    except Exception:  # noqa: BLE001
-        return
+    loads, values = try_load(su)
+    if loads:
+        return          # (its content was compared with the reference after every step)
     order = list(range(su.nparts)) + [rng.randrange(su.nparts)]
     rng.shuffle(order)
     inp = {"vcf_spec": su.spec, "history": [[list(c), k, t] for c, k, t in history], "recovery_order": order}
-    try:
-        for j in order:
-            su.cmd_fn(("partition", j))()
-        su.cmd_fn(("finalise",))()
-    except Exception as e:  # noqa: BLE001
-        ctx.violate(f"recovery after {inp['history']} failed: {type(e).__name__}: {str(e)[:150]}", inp, "recovers", repr(e)[:150])
+    errors = []
+    for cmd in [("finalise",)] + [("partition", j) for j in order] + [("finalise",)]:
+        try:
+            su.cmd_fn(cmd)()
+        except Exception as e:  # noqa: BLE001
+            errors.append(f"{cmd}: {type(e).__name__}")
+        if cmd[0] == "finalise" and try_load(su)[0]:
+            break
+    loads, values = try_load(su)
+    ctx.count("recovery_checked")
+    if not loads:
+        ctx.violate(f"after {inp['history']} no protocol command recovers a store that loads (finalise; partitions {order}; finalise -> "
+                    f"{errors[:4]})", inp, "recovers", errors[:6])
         return
-    snap = protolib.snapshot(su.icf)
+    if values != su.ref_values:
+        ctx.violate(f"store recovered after {inp['history']} differs from an uninterrupted run", inp, "reference values", "different")
+        return
+    snap = {k: v for k, v in protolib.snapshot(su.icf).items() if not k.startswith("wip")}
     if snap != su.reference:
         bad = sorted(k for k in set(snap) | set(su.reference) if snap.get(k) != su.reference.get(k))[:6]
         ctx.violate(f"store recovered after {inp['history']} differs from an uninterrupted run in {bad}", inp, "identical tree", bad)
-    ctx.count("recovery_checked")
 
 
 def run(ctx):
@@ -418,9 +432,10 @@ def run(ctx):
                     h.append((c, rng.choice([None, None, rng.randrange(n + 1)]), rng.random() < 0.4))
                 hists.append(("random", h))
             for label, h in hists:
-                ok = run_history(ctx, su, h, label)
+                nv = len(ctx.violations)
+                run_history(ctx, su, h, label)
                 ctx.count(label.replace(" ", "_"))
-                if ok:
+                if len(ctx.violations) == nv:
                     recovery_check(ctx, su, h, label)
             ctx.sample({"partitions": su.nparts, "events": {"init": n_init, "partition": n_p, "finalise": n_fin},
                         "example_history": [[list(c), k, t] for c, k, t in hists[len(hists) // 2][1]]}, limit=3)
